@@ -447,7 +447,7 @@ def main():
     chk.tie(["MimicProps.C14"])
     chk.run_replays(["D14"])
     rng = random.Random(chk.seed * 15485863 + 14)
-    nprog = 400 if chk.thorough else 60
+    nprog = 2500 if chk.thorough else 60
 
     async def go():
         await version_case(chk)
